@@ -64,6 +64,10 @@ type admSess struct {
 	cust    logic.ICustomizePubSessionContext
 	gone    bool
 	refused bool
+	// the lal session objects (byte counters for the server-tick ops, c03tick.go)
+	rtmpS   *rtmp.ServerSession
+	rtspPub *rtsp.PubSession
+	rtspSub *rtsp.SubSession
 }
 
 type admAttempt struct {
@@ -121,6 +125,9 @@ func (o admObs) learn(key string) {
 }
 func (o admObs) OnRtmpConnect(s *rtmp.ServerSession, opa rtmp.ObjectPairArray) {
 	o.learn(s.UniqueKey())
+	if o.c.cur != nil {
+		o.c.cur.rtmpS = s
+	}
 	o.c.sm.OnRtmpConnect(s, opa)
 }
 func (o admObs) OnNewRtmpPubSession(s *rtmp.ServerSession) error {
@@ -138,11 +145,17 @@ func (o admObs) OnNewRtspSessionConnect(s *rtsp.ServerCommandSession) {
 func (o admObs) OnDelRtspSession(s *rtsp.ServerCommandSession) { o.c.sm.OnDelRtspSession(s) }
 func (o admObs) OnNewRtspPubSession(s *rtsp.PubSession) error {
 	o.learn(s.UniqueKey())
+	if o.c.cur != nil {
+		o.c.cur.rtspPub = s
+	}
 	return o.c.sm.OnNewRtspPubSession(s)
 }
 func (o admObs) OnDelRtspPubSession(s *rtsp.PubSession) { o.c.sm.OnDelRtspPubSession(s) }
 func (o admObs) OnNewRtspSubSessionDescribe(s *rtsp.SubSession) (bool, []byte) {
 	o.learn(s.UniqueKey())
+	if o.c.cur != nil {
+		o.c.cur.rtspSub = s
+	}
 	return o.c.sm.OnNewRtspSubSessionDescribe(s)
 }
 func (o admObs) OnNewRtspSubSessionPlay(s *rtsp.SubSession) error {
